@@ -28,13 +28,14 @@ FRAME_MODULES = ["ahbicht.content_evaluation.rc_evaluators", "ahbicht.content_ev
                  "ahbicht.expressions.ahb_expression_parser", "ahbicht.models.categorized_key_extract",
                  "ahbicht.content_evaluation.token_logic_provider", "ahbicht.content_evaluation.evaluator_factory"]
 
-# write -> why a concurrently running coroutine cannot observe it  (prefix match on "function|written expression")
+# write -> why a concurrently running coroutine cannot observe it  ("function|written expression": prefix match, or
+# "*.attribute" = a store to that attribute through whatever local name)
 MODIFIES = {
     "ahbicht.content_evaluation.fc_evaluators:FcEvaluator.evaluate_single_format_constraint|result.error_message":
         "the object just returned by the user's evaluation method (its default message); not shared by ahbicht",
     "ahbicht.expressions.expression_resolver:_replace_sub_coroutines_with_awaited_results|sub_tree.children[":
         "children of the tree this very call received from PackageExpansionTransformer().transform (a fresh tree)",
-    "ahbicht.expressions.ahb_expression_evaluation:AhbExpressionTransformer._ahb_expression_async|single_requirement_indicator_expression.":
+    "ahbicht.expressions.ahb_expression_evaluation:AhbExpressionTransformer._ahb_expression_async|*.requirement_is_conditional":
         "a result object produced by this evaluation's own parts (fresh per evaluation)",
     "ahbicht.content_evaluation:is_valid_expression.evaluate_with_cer|single_invalid_expression_error.invalid_expression":
         "the exception object raised inside this coroutine",
@@ -63,6 +64,14 @@ MODIFIES = {
 }
 
 
+def _covers(pattern: str, written: str) -> bool:
+    """`prefix...` : the written expression starts with it; `*.attr` : it is a store to that attribute of any object
+    (the name of the local through which it is reached does not matter)"""
+    if pattern.startswith("*."):
+        return written.endswith(pattern[1:])
+    return written.startswith(pattern)
+
+
 def frame_obligations(ctx: Ctx) -> None:
     v = verifier()
     t0 = time.time()
@@ -78,7 +87,7 @@ def frame_obligations(ctx: Ctx) -> None:
             n_fn += 1
             undeclared = []
             for what, line, kind in write_set(fn):
-                if not any(q.startswith(k.split("|")[0]) and what.startswith(k.split("|")[1]) for k in MODIFIES):
+                if not any(q.startswith(k.split("|")[0]) and _covers(k.split("|")[1], what) for k in MODIFIES):
                     undeclared.append(f"{what} (line {line})")
             if undeclared:
                 ctx.obligation(f"frame/{q}", "undecided", backend="syntactic write-set analysis",
